@@ -1,6 +1,6 @@
 """Rules on the hand-written in-memory file handles and on what the backends hand out
 (C04 R04.1–R04.3, C14 R14.1–R14.6, C19 R19.1–R19.2)."""
-from .terms import get_tracer, short, strip, fmt, walk, call_of, passthrough_of
+from .terms import get_tracer, short, strip, fmt, walk, call_of, passthrough_of, alts
 from .inter import Inter
 from .panics import Discharger, norm, unchecked_arith
 from .pathrules import sname, peel
@@ -503,6 +503,18 @@ class Handles:
                                                 c2 = c2[2][0] if c2[0] == "call" else c2[3][0][1]
                                             if not (c2[0] == "field" and c2[2] == fld):
                                                 exact = False
+                    # the `match previous { Some(file) => file.<fld>, None => fallback }` spelling: the field of the looked-up entry
+                    # itself is one alternative of the value
+                    if v is not None and prev:
+                        for a_ in alts(v):
+                            c2 = a_
+                            while (c2[0] == "call" and c2[1] in ("Clone::clone", "Option::clone", "Deref::deref", "Into::into", "From::from") and c2[2]) or \
+                                    (c2[0] == "agg" and c2[2] == "Some" and len(c2[3]) == 1):
+                                c2 = c2[2][0] if c2[0] == "call" else c2[3][0][1]
+                            if c2[0] == "field" and c2[2] == fld and any(
+                                    x[0] == "call" and x[1] in ("HashMap::get", "HashMap::get_mut") and len(x[2]) == 2 and x[2][1][0] == "field" and
+                                    x[2][1][2] == dest_field for x in walk(c2[1])):
+                                same = True
                     n += 1
                     rep.ob(rule_time, target.id, "flush keeps `%s` of the previous entry" % fld, prev and same, "" if (prev and same) else
                            "`%s` of the published entry is %s: it is not taken from the entry found under the destination at flush "
